@@ -742,6 +742,9 @@ func runLoop(c *runCtx) {
 						k++
 						if g > 0 {
 							time.Sleep(time.Duration(clampInt(g, 0, 5000)) * time.Millisecond)
+							// woken by the clock, not by the scheduler: nothing shared (loadGen) is read before
+							// the scheduler has let this task go on
+							zsim.Yield("loader-wake")
 						}
 					}
 				}
@@ -816,6 +819,7 @@ func runLoop(c *runCtx) {
 		for _, op := range plan.Ops {
 			if op.GapMs > 0 {
 				time.Sleep(time.Duration(clampInt(op.GapMs, 0, 5000)) * time.Millisecond)
+				zsim.Yield("coord-wake")
 			}
 			if op.Toggle {
 				sortNow = !sortNow
